@@ -201,6 +201,23 @@ func derivesFrom(x, e ssa.Value, depth int) bool {
 				return derivesFrom(v.Common().Args[0], e, depth+1)
 			}
 		}
+		// a small helper of the package, every result of which is its own
+		// argument or a slice of it (a "strip the dash" helper)
+		if g := v.Common().StaticCallee(); g != nil && smallHelper(g) && len(g.Params) == 1 && len(v.Common().Args) == 1 {
+			all := true
+			n := 0
+			for _, b := range g.Blocks {
+				if ret, ok := b.Instrs[len(b.Instrs)-1].(*ssa.Return); ok && len(ret.Results) == 1 {
+					n++
+					if !derivesFrom(ret.Results[0], g.Params[0], depth+1) {
+						all = false
+					}
+				}
+			}
+			if all && n > 0 {
+				return derivesFrom(v.Common().Args[0], e, depth+1)
+			}
+		}
 	}
 	return false
 }
